@@ -143,8 +143,16 @@ def install():
     # every module of the library that holds the datetime / time MODULE under its usual name reads the simulated clock
     # (a change to the library that starts reading the clock somewhere else must not escape the seam)
     import time as _t
+    # The shim class is not the class of the datetimes that flow through the library (those are real datetime.datetime objects),
+    # so an exact-type test `type(x) is datetime.datetime` inside a shimmed module is always False: a fast path guarded that way
+    # would never be taken under simulation.  In one worker class out of four the calendar module (which reads no clock) therefore
+    # keeps the real datetime module; pyg_base._dates, where every clock read of the library lives, is always shimmed.
+    keep_real = {'pyg_base._drange'} if os.environ.get('VERIF_DRANGE_REAL_DT') == '1' else set()
+    if keep_real:
+        import pyg_base._drange as _R
+        _R.datetime = _real
     for name, m in list(sys.modules.items()):
-        if name.startswith('pyg_base') and m is not None:
+        if name.startswith('pyg_base') and m is not None and name not in keep_real:
             if getattr(m, 'datetime', None) is _real:
                 m.datetime = shim
             if getattr(m, 'time', None) is _t:
